@@ -294,7 +294,12 @@ func (w *World) SendPacket(p simnet.Packet) error {
 		caddr = to.String()
 	}
 	rec := &DgramRec{Dir: dir, Ord: ord, SentNS: now, Size: len(p.Data), Hash: KHashS(string(p.Data)), Client: caddr}
-	rec.Pkts = w.Tap.Datagram(dir, ord, caddr, p.Data)
+	// (the wiretap sits on the client's side of the NAT: it knows one client under its private address)
+	tapAddr := caddr
+	if tapAddr == wClientAddr2.String() {
+		tapAddr = wClientAddr.String()
+	}
+	rec.Pkts = w.Tap.Datagram(dir, ord, tapAddr, p.Data)
 	w.Log[dir] = append(w.Log[dir], rec)
 	if len(w.raw[dir]) < 256 {
 		w.raw[dir] = append(w.raw[dir], p.Data)
